@@ -61,7 +61,9 @@ func VerifC03Report() {
 	}
 	includeTime := v.Bool("includeTime")
 	rc := c.ReportConfiguration{IncludeReportCreationTime: includeTime, ReportSchemaIri: v.Bytes("reportSchemaIri", 1), LexicalSchemaIri: v.Bytes("lexicalSchemaIri", 1)}
-	clock := verifClock{time.Date(2000+v.Choice("year", 2), time.November, 28, 1, 2, 3, 0, time.UTC)}
+	// the configured instant in UTC, east and west of it (an offset with minutes included)
+	zones := []*time.Location{time.UTC, time.FixedZone("", 2*3600), time.FixedZone("", -(3*3600 + 1800))}
+	clock := verifClock{time.Date(2000+v.Choice("year", 2), time.November, 28, 1, 2, 3, 0, zones[v.Choice("zone", len(zones))])}
 	text, err := BuildReport(&rs, clock, rc)
 	v.Assert("C03.no-error", err == nil && text != "")
 	v.Reach("encoded")
@@ -92,7 +94,10 @@ func VerifC03Report() {
 	date, hasDate := rep["dateCreated"]
 	if includeTime {
 		v.Reach("with-date")
-		v.Assert("C03.dateCreated", hasDate && date == clock.t.Format(time.RFC3339))
+		// the text is an xsd:dateTime (RFC 3339) that denotes the configured instant
+		ds, isStr := date.(string)
+		parsed, perr := time.Parse(time.RFC3339, ds)
+		v.Assert("C03.dateCreated", hasDate && isStr && perr == nil && parsed.Equal(clock.t))
 	} else {
 		v.Reach("without-date")
 		v.Assert("C03.dateCreated", !hasDate)
